@@ -148,6 +148,8 @@ fn states_family(prefix: &str, class: Class, caps: &[Cap], envs: &[Env], full: b
         ("send", vec![Op::TrySend], vec![]),
         ("send,recv", vec![Op::TrySend, Op::TryRecv], vec![]),
         ("2send,recv", vec![Op::TrySend, Op::TrySend, Op::TryRecv], vec![]),
+        ("2send,recv,timed", vec![Op::TrySend, Op::TrySend, Op::TryRecv, Op::SendT(0)], vec![]),
+        ("2send,recv,otimed", vec![Op::TrySend, Op::TrySend, Op::TryRecv, Op::SendOT(0)], vec![]),
         ("cancelled-recv", vec![Op::FRecv(3), Op::Poll(3, 0), Op::FDrop(3)], vec![]),
         ("cancelled-send", vec![Op::TrySend, Op::TrySend, Op::FSend(3), Op::Poll(3, 0), Op::FDrop(3), Op::TryRecv], vec![]),
         ("pending-recv", vec![Op::FRecv(3), Op::Poll(3, 0)], vec![Op::Poll(3, 0)]),
@@ -261,7 +263,7 @@ fn well_formed(ops: &[Op]) -> bool {
                 }
             }
             Op::StreamNext(s) => {
-                if live[s as usize] != 3 {
+                if live[(s & 0x7f) as usize] != 3 {
                     return false;
                 }
             }
@@ -291,7 +293,7 @@ fn well_formed(ops: &[Op]) -> bool {
 /// issued through (the others exist identically on both flavours or are
 /// reached through a borrowed `as_sync`/`as_async` view, which C09 covers).
 fn flavour_sensitive(o: &Op) -> bool {
-    matches!(o, Op::Send | Op::Recv | Op::NewHandle(..) | Op::DropHandle(_) | Op::DropHandleUnwinding(_))
+    matches!(o, Op::Send | Op::Recv | Op::NewHandle(..) | Op::CloneFrom(_) | Op::DropHandle(_) | Op::DropHandleUnwinding(_))
 }
 
 /// Drop programs that differ from another one only in the flavour of a thread
@@ -828,9 +830,31 @@ fn c02(thorough: bool) -> Suite {
         &[env(2, 1, None, UNB)],
         false,
     ));
+    // a pending receive that was handed a value and is then cancelled: the
+    // value may be lost (documented) but never reappears behind later ones
+    ps.extend(product(
+        "c02-recv-cancel",
+        &[
+            vec![
+                vec![Op::Wait(0), Op::TrySend, Op::TrySend, Op::TrySend, Op::Set(1)],
+                vec![Op::Wait(0), Op::TrySend, Op::Set(1), Op::TrySend, Op::TrySend],
+            ],
+            vec![
+                vec![Op::FRecv(0), Op::Poll(0, 0), Op::Set(0), Op::Wait(1), Op::FDrop(0), Op::TryRecv, Op::TryRecv, Op::TryRecv],
+                vec![Op::FRecv(0), Op::Poll(0, 0), Op::Set(0), Op::Wait(1), Op::FDrop(0), Op::Drain(VecState::Empty), Op::TryRecv],
+            ],
+        ],
+        &[Cap::B(1), Cap::B(2), Cap::Unbounded],
+        &[Class::P, Class::L],
+        &[vec![(S, S), (A, A)], vec![(A, A), (A, A)]],
+        &[(S, Conv::Clone)],
+        &[env(2, 1, None, pb2(thorough))],
+        false,
+    ));
+    ps.extend(states_family("c02-states", Class::P, &[Cap::B(1), Cap::B(2)], &[env(2, 1, None, Some(3))], thorough));
     Suite {
         cfg: cfg(&[Oracle::Fifo], &[], false, false),
-        rule: "ordered-producer programs: one producer x 2 (thorough 3) sends of every kind x one consumer (recv/try/timed/drain) x capacities {0,1,2,unbounded} x flavour assignments; two producers ordered by a flag; three pending async senders with one cancelled before the consumer starts; preemption-bounded except where noted".into(),
+        rule: "ordered-producer programs: one producer x 2 (thorough 3) sends of every kind x one consumer (recv/try/timed/drain) x capacities {0,1,2,unbounded} x flavour assignments; two producers ordered by a flag; three pending async senders with one cancelled before the consumer starts; a pending receive cancelled after it was handed a value; the single-op pairs from eleven non-initial channel states; preemption-bounded except where noted".into(),
         programs: ps,
     }
 }
@@ -1123,13 +1147,116 @@ fn c04(thorough: bool) -> Suite {
         &[env(2, 1, None, pb2(thorough))],
         true,
     ));
+    // a stream across several waits, every item awaited with a fresh waker and
+    // re-polled with yet another one while the sender may be in the middle of
+    // the hand-off
+    ps.extend(product(
+        "c04-stream",
+        &[
+            vec![vec![Op::Send, Op::Send], vec![Op::TrySend, Op::Send]],
+            vec![
+                vec![Op::FStream(0), Op::StreamNext(REPOLL), Op::StreamNext(REPOLL)],
+                vec![Op::FStream(0), Op::StreamNext(0), Op::StreamNext(REPOLL)],
+            ],
+        ],
+        &[Cap::B(0), Cap::B(1)],
+        if thorough { &classes } else { &[Class::B3, Class::P, Class::L, Class::DL] },
+        &[vec![(S, S), (A, A)], vec![(A, A), (A, A)]],
+        &[(S, Conv::Clone)],
+        &[env(2, 1, None, Some(if thorough { 4 } else { 3 }))],
+        true,
+    ));
+    // a receiver is already waiting (sync: blocked in another thread, async:
+    // a future of thread 0 polled once) when a second receiver drains / tries
+    ps.extend(with_prefix_suffix(
+        product(
+            "c04-waiting-recv",
+            &[
+                seqs(&[Op::Drain(VecState::Empty), Op::TryRecv, Op::Drain(VecState::Tight)], 1),
+                seqs(&[Op::Send, Op::TrySend], 1),
+            ],
+            &[Cap::B(0), Cap::B(1)],
+            if thorough { &classes } else { &[Class::B3, Class::P, Class::L, Class::DL] },
+            &[vec![(A, A), (S, S)]],
+            &[(S, Conv::Clone)],
+            &[env(2, 1, None, Some(4))],
+            false,
+        ),
+        &[Op::FRecv(3), Op::Poll(3, 0)],
+        &[Op::Poll(3, 0)],
+        "pending-recv",
+    ));
+    ps.extend(product(
+        "c04-blocked-recv",
+        &[
+            seqs(&[Op::Recv, Op::RecvT(3)], 1),
+            seqs(&[Op::Drain(VecState::Empty), Op::Drain(VecState::Tight)], 1),
+            seqs(&[Op::Send], 1),
+        ],
+        &[Cap::B(0), Cap::B(1)],
+        if thorough { &classes } else { &[Class::P, Class::DL] },
+        &sync_only(3),
+        &[(S, Conv::Clone)],
+        &[env(2, 1, None, pb3(thorough))],
+        false,
+    ));
     let mut k = vec![Kind::DataRace, Kind::UseAfterReturn];
     k.push(Kind::Panic);
     Suite {
         cfg: cfg(&[Oracle::Intact], &k, true, false),
-        rule: "payload class (zero-sized, over-aligned zero-sized, 1 byte, 3 bytes padded, pointer-sized, 3 words, 24 bytes padded, droppable twins) x transfer path (buffer / written into a blocked receiver's slot / read out of a blocked sender's slot: decided by the schedule) x waiter kind (sync parked, sync timed, async) x capacity {0,1}; received bytes must equal the sent pattern (all bytes distinct), slot accesses must be happens-before ordered".into(),
+        rule: "payload class (zero-sized, over-aligned zero-sized, 1 byte, 3 bytes padded, pointer-sized, 3 words, 24 bytes padded, droppable twins) x transfer path (buffer / written into a blocked receiver's slot / read out of a blocked sender's slot: decided by the schedule) x waiter kind (sync parked, sync timed, async, a stream across two waits re-polled with changing wakers) x capacity {0,1}; a second receiver draining while the first one waits; received bytes must equal the sent pattern (all bytes distinct), slot accesses must be happens-before ordered".into(),
         programs: ps,
     }
+}
+
+/// A timed operation with a far deadline whose channel is closed, or whose
+/// other side goes away, while it waits: it has to be released by that event.
+fn release_family(name: &str, closers: bool, droppers: bool) -> Vec<Program> {
+    let mut ps = Vec::new();
+    let mut rs: Vec<Vec<Op>> = Vec::new();
+    let mut ss: Vec<Vec<Op>> = Vec::new();
+    if droppers {
+        rs.push(vec![Op::DropHandle(Side::R)]);
+        ss.push(vec![Op::DropHandle(Side::S)]);
+        ss.push(vec![Op::NewHandle(Side::S, Conv::Clone), Op::DropHandle(Side::S), Op::DropHandle(Side::S)]);
+    }
+    if closers {
+        rs.push(vec![Op::Close(Side::R)]);
+        ss.push(vec![Op::Close(Side::S)]);
+    }
+    for par in [2u8, 1] {
+        ps.extend(product(
+            &format!("{name}-recv"),
+            &[ss.clone(), vec![vec![Op::RecvT(200)]]],
+            &[Cap::B(0), Cap::B(1)],
+            &[Class::DL],
+            &sync_only(2),
+            &[(S, Conv::Clone)],
+            &[env(par, 1, None, Some(3))],
+            false,
+        ));
+        ps.extend(product(
+            &format!("{name}-send"),
+            &[vec![vec![Op::SendT(200)], vec![Op::SendOT(200)]], rs.clone()],
+            &[Cap::B(0)],
+            &[Class::DL],
+            &sync_only(2),
+            &[(S, Conv::Clone)],
+            &[env(par, 1, None, Some(3))],
+            false,
+        ));
+        ps.extend(product(
+            &format!("{name}-send-full"),
+            &[vec![vec![Op::TrySend, Op::SendT(200)]], rs.clone()],
+            &[Cap::B(1)],
+            &[Class::DL],
+            &sync_only(2),
+            &[(S, Conv::Clone)],
+            &[env(par, 1, None, Some(3))],
+            false,
+        ));
+    }
+    ps
 }
 
 fn c06(thorough: bool) -> Suite {
@@ -1355,9 +1482,11 @@ fn c06(thorough: bool) -> Suite {
         &[env(2, 1, None, pb3(thorough)), env(2, 1, Some(0), pb3(thorough))],
         false,
     ));
+    ps.extend(release_family("c06-release", true, true));
+    ps.extend(states_family("c06-states", Class::L, &[Cap::B(0), Cap::B(1), Cap::B(2)], &[env(2, 1, None, Some(3))], thorough));
     Suite {
-        cfg: cfg(&[], &STUCK, false, false),
-        rule: "every blocking / pending operation against every peer that can release it (value, close, last handle of the other side going away) x spurious park index {none,0,1,2} x reported parallelism {1,2} x sync/async on either side, futures re-polled with a different waker; two-op programs (stale unpark tokens), stream across several waits, 3 threads with a closer; every execution must terminate: loom reports 'deadlock' when every unfinished thread is blocked, the per-execution step budget catches endless spinning".into(),
+        cfg: cfg(&[Oracle::Released], &STUCK, false, false),
+        rule: "every blocking / pending operation against every peer that can release it (value, close, last handle of the other side going away) x spurious park index {none,0,1,2} x reported parallelism {1,2} x sync/async on either side, futures re-polled with a different waker; two-op programs (stale unpark tokens), stream across several waits, 3 threads with a closer; the single-op pairs started from eleven non-initial channel states; timed operations with a far deadline (200 ticks) must be released by the close / disconnect itself and not by their deadline; every execution must terminate: loom reports 'deadlock' when every unfinished thread is blocked, the per-execution step budget catches endless spinning".into(),
         programs: ps,
     }
 }
@@ -1686,6 +1815,24 @@ fn c09(thorough: bool) -> Suite {
         &[env(2, 1, None, pb2(thorough))],
         true,
     ));
+    // a stream on the async view of either kind of receiver, every item awaited
+    // with a different waker, fed by a sync or an async sender
+    ps.extend(product(
+        "c09-stream",
+        &[
+            vec![vec![Op::Send, Op::Send], vec![Op::TrySend, Op::Send], vec![Op::Send, Op::Len(Side::S), Op::Send]],
+            vec![
+                vec![Op::FStream(0), Op::StreamNext(0), Op::StreamNext(0)],
+                vec![Op::FStream(0), Op::Poll(0, 0), Op::StreamNext(0), Op::StreamNext(REPOLL)],
+            ],
+        ],
+        &[Cap::B(0), Cap::B(1)],
+        &[Class::DL],
+        &[vec![(S, S), (A, A)], vec![(A, A), (A, A)]],
+        &[(S, Conv::CloneOther), (A, Conv::ToOther), (A, Conv::Clone)],
+        &[env(2, 1, None, pb2(thorough))],
+        true,
+    ));
     Suite {
         cfg: cfg(
             &[Oracle::ExactlyOnce, Oracle::Fifo, Oracle::DropOnce, Oracle::Outcome],
@@ -1693,7 +1840,7 @@ fn c09(thorough: bool) -> Suite {
             false,
             false,
         ),
-        rule: "the core programs instantiated for every {sync, async} assignment of each endpoint, reached through each of bounded/bounded_async + clone, clone_sync/clone_async, to_sync/to_async (and as_sync/as_async borrowed views for operations the handle's own flavour lacks); conversions in the middle of a thread's life with counts observed around them; all delivery, order, ownership, model-outcome and progress oracles".into(),
+        rule: "the core programs instantiated for every {sync, async} assignment of each endpoint, reached through each of bounded/bounded_async + clone, clone_sync/clone_async, to_sync/to_async (and as_sync/as_async borrowed views for operations the handle's own flavour lacks); conversions in the middle of a thread's life with counts observed around them; a stream awaited with a different waker per item; all delivery, order, ownership, model-outcome and progress oracles".into(),
         programs: ps,
     }
 }
@@ -1785,8 +1932,9 @@ fn c10(thorough: bool) -> Suite {
         &[env(2, 1, None, pb3(thorough))],
         false,
     ));
+    ps.extend(release_family("c10-release", true, false));
     Suite {
-        cfg: cfg(&[Oracle::Close, Oracle::Outcome, Oracle::Linear, Oracle::DropOnce], &STUCK, false, false),
+        cfg: cfg(&[Oracle::Close, Oracle::Outcome, Oracle::Linear, Oracle::DropOnce, Oracle::Released], &STUCK, false, false),
         rule: "close issued by either side at any point against blocked / pending / buffered / in-flight operations of every kind, operations begun by the closing thread after close returned, second close, 3 threads; oracle: exactly one close succeeds, everything begun after its return fails Closed (counts 0, no value delivered), buffered values destroyed by close's return, blocked operations released, results in the model's outcome set".into(),
         programs: ps,
     }
@@ -1869,8 +2017,9 @@ fn c11(thorough: bool) -> Suite {
         &[env(2, 1, None, pb3(thorough))],
         false,
     ));
+    ps.extend(release_family("c11-release", false, true));
     Suite {
-        cfg: cfg(&[Oracle::Disconnect, Oracle::Outcome, Oracle::Linear, Oracle::Fifo], &STUCK, false, false),
+        cfg: cfg(&[Oracle::Disconnect, Oracle::Outcome, Oracle::Linear, Oracle::Fifo, Oracle::Released], &STUCK, false, false),
         rule: "clone/drop of handles of both flavours interleaved with blocked, buffered and in-flight operations; capacities {0,1,unbounded}; oracle: a disconnect is never observed while a handle of that side is surely alive, buffered values come first and in order, every blocked operation is released, results in the model's outcome set (the model fails waiters only on the 1->0 transition)".into(),
         programs: ps,
     }
@@ -2055,11 +2204,13 @@ fn c13(thorough: bool) -> Suite {
         &[env(2, 1, None, pb3(thorough))],
         false,
     ));
+    ps.extend(release_family("c13-release", true, true));
+    ps.extend(states_family("c13-states", Class::DL, &[Cap::B(1), Cap::B(2)], &[env(2, 1, None, Some(3))], thorough));
     let mut k = vec![Kind::UseAfterReturn, Kind::DataRace, Kind::Panic];
     k.extend_from_slice(&STUCK);
     Suite {
-        cfg: cfg(&[Oracle::Timed, Oracle::ExactlyOnce, Oracle::Outcome], &k, true, false),
-        rule: "each timed operation (send_timeout, send_option_timeout, recv_timeout; durations of 0..4 virtual ticks) against a peer that arrives, hands off, closes or disconnects at any point, reported parallelism {1,2}, droppable payloads; a later peer after the timeout; 3 threads; oracle: exactly one of success/timeout/closed, timeout never before the deadline on the virtual clock, value moved exactly once or not at all (ledger, Option), nothing left behind (no access to the retired waiter, later operations per the model), every execution terminates".into(),
+        cfg: cfg(&[Oracle::Timed, Oracle::ExactlyOnce, Oracle::Outcome, Oracle::Released], &k, true, false),
+        rule: "each timed operation (send_timeout, send_option_timeout, recv_timeout; durations of 0..4 virtual ticks) against a peer that arrives, hands off, closes or disconnects at any point, reported parallelism {1,2}, droppable payloads; a later peer after the timeout; 3 threads; a far deadline (200 ticks) with a peer that closes or leaves; the single-op pairs started from eleven non-initial channel states; oracle: a closed / disconnected error is reported before the far deadline, exactly one of success/timeout/closed, timeout never before the deadline on the virtual clock, value moved exactly once or not at all (ledger, Option), nothing left behind (no access to the retired waiter, later operations per the model), every execution terminates".into(),
         programs: ps,
     }
 }
@@ -2366,7 +2517,7 @@ fn c16(thorough: bool) -> Suite {
 
 fn c19(thorough: bool) -> Suite {
     let mut ps = Vec::new();
-    let vs = [VecState::Empty, VecState::Spare, VecState::Prefilled];
+    let vs = [VecState::Empty, VecState::Spare, VecState::Prefilled, VecState::Tight];
     let drains: Vec<Vec<Op>> = vs
         .iter()
         .flat_map(|v| {
